@@ -41,6 +41,7 @@ from typing import Dict, List, Optional, Set, Tuple
 
 from ..cfg import cfg_of, origins
 from ..flowutil import attr_chain, for_origin, is_fresh_list, mutations_of, param_origin
+from ..idioms import conditions_at
 from ..index import AnalysisError, FuncNode, arg_of, call_name, calls_in, enclosing_class, enclosing_function, kwarg, last_attr, norm, short, walk_local
 from ..spacekinds import attr_path, leaves
 
@@ -343,7 +344,7 @@ def _r28b(chk, repo) -> None:
     for st in merges:
         uniq = False
         why = "no dominating key-uniqueness test"
-        for e, pol in cfg.conditions(st):
+        for e, pol in conditions_at(cfg, st):
             if not (isinstance(e, ast.Compare) and len(e.ops) == 1):
                 continue
             op = e.ops[0]
@@ -361,10 +362,33 @@ def _r28b(chk, repo) -> None:
                 if isinstance(s_, ast.Call) and call_name(s_) in ("set", "frozenset") and len(s_.args) == 1 and isinstance(s_.args[0], ast.Name) and isinstance(l_, ast.Name) and s_.args[0].id == l_.id:
                     keys = l_.id
                     # the key list holds the keys of every child, unfiltered
-                    os_ = origins(cfg, l_, cfg.stmt_of(e))
+                    os_ = [o for o in origins(cfg, l_, cfg.stmt_of(e)) if o.kind != "aug"]
                     fresh = bool(os_) and all(o.kind == "expr" and is_fresh_list(o.expr) for o in os_)
                     full = False
+                    # ``keys = [k for d in contents for k in d.keys()]``: the same list in one expression
+                    if len(os_) == 1 and os_[0].kind == "expr" and isinstance(os_[0].expr, ast.ListComp) and not mutations_of(f, keys):
+                        lc_ = os_[0].expr
+                        g_ = lc_.generators
+                        if len(g_) == 2 and not g_[0].ifs and not g_[1].ifs and isinstance(g_[0].target, ast.Name) and isinstance(g_[1].target, ast.Name) \
+                                and isinstance(lc_.elt, ast.Name) and lc_.elt.id == g_[1].target.id and is_contents(g_[0].iter, os_[0].stmt):
+                            it2 = g_[1].iter
+                            if (isinstance(it2, ast.Call) and isinstance(it2.func, ast.Attribute) and it2.func.attr == "keys" and not it2.args and isinstance(it2.func.value, ast.Name) and it2.func.value.id == g_[0].target.id) \
+                                    or (isinstance(it2, ast.Name) and it2.id == g_[0].target.id):
+                                fresh = full = True
                     for k, node in mutations_of(f, keys):
+                        if k == "augassign" and isinstance(node, ast.AugAssign) and isinstance(node.op, ast.Add):
+                            # ``keys += list(d.keys())`` is ``keys.extend(d.keys())``
+                            arg = node.value
+                            while isinstance(arg, ast.Call) and call_name(arg) in ("list", "tuple") and len(arg.args) == 1:
+                                arg = arg.args[0]
+                            fo = for_origin(cfg, arg.func.value, node) if isinstance(arg, ast.Call) and isinstance(arg.func, ast.Attribute) and arg.func.attr == "keys" else None
+                            loop = fo[0] if fo else None
+                            if loop is not None and not fo[1] and is_contents(loop.iter, loop) and getattr(node, "_parent", None) is loop:
+                                full = True
+                            else:
+                                full = False
+                                break
+                            continue
                         if k in ("extend", "append") and node.args:
                             fo = None
                             arg = node.args[0]
@@ -433,6 +457,15 @@ def _child_visits(f, cfg, recursive: str) -> List[Visit]:
     return out
 
 
+def _inside_node(node, anc) -> bool:
+    p = node
+    while p is not None:
+        if p is anc:
+            return True
+        p = getattr(p, "_parent", None)
+    return False
+
+
 def _is_loop_var(cfg, v: Visit, e, at) -> bool:
     if not isinstance(e, ast.Name):
         return False
@@ -483,6 +516,13 @@ def _r28c(chk, repo) -> None:
             # collected in order into a fresh list
             p = getattr(call, "_parent", None)
             app = p if isinstance(p, ast.Call) and isinstance(p.func, ast.Attribute) and p.func.attr == "append" and isinstance(p.func.value, ast.Name) else None
+            if app is None and isinstance(p, (ast.Assign, ast.AnnAssign)) and p.value is call:
+                # ``child = seg.to_tuple(..)`` then ``children.append(child)`` in the same iteration
+                for c2 in calls_in(loop):
+                    if isinstance(c2.func, ast.Attribute) and c2.func.attr == "append" and isinstance(c2.func.value, ast.Name) and len(c2.args) == 1 and isinstance(c2.args[0], ast.Name):
+                        os2 = origins(cfg, c2.args[0], cfg.stmt_of(c2))
+                        if len(os2) == 1 and os2[0].kind == "expr" and os2[0].expr is call and not os2[0].path and cfg.dominates(p, cfg.stmt_of(c2)) and not cfg.conditions(cfg.stmt_of(c2))[len(cfg.conditions(p)):]:
+                            app = c2
             chk.require(app is not None, "R28c", call, "a child's tuple is not appended to the list of child tuples", detail="child tuple appended")
             if app is None:
                 continue
@@ -502,6 +542,13 @@ def _r28c(chk, repo) -> None:
             chk.ok("R28c", f"{SEGBASE}::BaseSegment.to_tuple", "code_only arm: filter is the caller's request")
             continue
         saw_unfiltered_arm = True
+        # a skip written as an early ``continue`` leaves the false edge of a conjunction (``if child.is_meta and not
+        # include_meta: continue``): by De Morgan that is the disjunction of the negated operands
+        inner = [
+            (ast.BoolOp(op=ast.Or(), values=[ast.UnaryOp(op=ast.Not(), operand=x) for x in e.values]), True)
+            if isinstance(e, ast.BoolOp) and isinstance(e.op, ast.And) and not pol else (e, pol)
+            for e, pol in inner
+        ]
         # allowed: nothing, or the single test `include_meta or not child.is_meta`
         ok = True
         for e, pol in inner:
@@ -536,7 +583,7 @@ def _r28c(chk, repo) -> None:
         if not (isinstance(v, ast.Tuple) and len(v.elts) == 2):
             continue
         second = v.elts[1]
-        conds = cfg.conditions(st)
+        conds = conditions_at(cfg, st)
         is_leaf_arm = any(pol and isinstance(e, ast.Name) and param_origin(cfg, e, st) == "show_raw" for e, pol in conds)
         if is_leaf_arm:
             leaf_seen = True
@@ -544,7 +591,20 @@ def _r28c(chk, repo) -> None:
                 attr_path(cfg, second, st) == [(me, "raw")], "R28c", st,
                 f"the leaf tuple carries {short(second, 50)} instead of the unmodified self.raw", detail="leaf tuple = (type, self.raw)",
             )
-            no_kids = any((not pol) and attr_path(cfg, e, st) == [(me, "segments")] for e, pol in conds if isinstance(e, (ast.Attribute, ast.Name)))
+            def says_no_children(e, pol) -> bool:
+                # ``not self.segments`` / ``len(self.segments) == 0`` (and the negated spellings on the other edge)
+                if isinstance(e, (ast.Attribute, ast.Name)):
+                    return (not pol) and attr_path(cfg, e, cfg.stmt_of(e) or st) == [(me, "segments")]
+                if isinstance(e, ast.Compare) and len(e.ops) == 1 and isinstance(e.left, ast.Call) and call_name(e.left) == "len" and len(e.left.args) == 1 \
+                        and isinstance(e.comparators[0], ast.Constant) and isinstance(e.comparators[0].value, int) and not isinstance(e.comparators[0].value, bool) \
+                        and attr_path(cfg, e.left.args[0], cfg.stmt_of(e) or st) == [(me, "segments")]:
+                    c_, op_ = e.comparators[0].value, e.ops[0]
+                    empty_when_true = (isinstance(op_, ast.Eq) and c_ == 0) or (isinstance(op_, ast.Lt) and c_ == 1) or (isinstance(op_, ast.LtE) and c_ == 0)
+                    empty_when_false = (isinstance(op_, ast.Gt) and c_ == 0) or (isinstance(op_, ast.GtE) and c_ == 1) or (isinstance(op_, ast.NotEq) and c_ == 0)
+                    return (pol and empty_when_true) or ((not pol) and empty_when_false)
+                return False
+
+            no_kids = any(says_no_children(e, pol) for e, pol in conds)
             chk.require(no_kids, "R28c", st, "the leaf arm is taken for segments that have children: their children are not listed", detail="leaf arm only without children")
         else:
             good = isinstance(second, ast.Call) and call_name(second) == "tuple" and len(second.args) == 1 and (
@@ -552,6 +612,10 @@ def _r28c(chk, repo) -> None:
             )
             chk.require(good, "R28c", st, f"a non-leaf tuple carries {short(second, 50)} instead of tuple(<child tuples in order>)", detail="node tuple = (type, tuple(child tuples))")
         t0 = v.elts[0]
+        if isinstance(t0, ast.Name):
+            os_ = origins(cfg, t0, st)
+            if len(os_) == 1 and os_[0].kind == "expr" and not os_[0].path:
+                t0 = os_[0].expr  # ``seg_type = self.get_type()`` kept in a local
         chk.require(
             isinstance(t0, ast.Call) and isinstance(t0.func, ast.Attribute) and t0.func.attr == "get_type" and attr_path(cfg, t0.func.value, st) == [(me,)], "R28c", st,
             f"the tuple's type entry is {short(t0, 40)}, not self.get_type()", detail="tuple type = self.get_type()",
@@ -666,6 +730,177 @@ def _r28c(chk, repo) -> None:
 from ..selftest import Variant  # noqa: E402
 
 VARIANTS = [
+    # behaviour-preserving refactors: must stay quiet
+    Variant(
+        "quiet-as-record-two-steps", SEGBASE,
+        '        return self.structural_simplify(self.to_tuple(**kwargs))\n',
+        '        as_tuple = self.to_tuple(**kwargs)\n        record = self.structural_simplify(as_tuple)\n        return record\n',
+        "QUIET", None, 'tuple and record through locals',
+    ),
+    Variant(
+        "quiet-api-return-direct", API,
+        '    record = root_variant.tree.as_record(show_raw=True)\n    assert record\n    return record\n',
+        '    tree = root_variant.tree\n    record = tree.as_record(show_raw=True)\n    assert record\n    return record\n',
+        "QUIET", None, 'tree through a local',
+    ),
+    Variant(
+        "quiet-cli-tree-local", CMDS,
+        '                segments = root_variant.tree.as_record(\n                    code_only=code_only,\n                    show_raw=True,\n',
+        '                tree = root_variant.tree\n                segments = tree.as_record(\n                    show_raw=True,\n                    code_only=code_only,\n',
+        "QUIET", None, 'tree through a local, keyword order changed',
+    ),
+    Variant(
+        "quiet-cli-ifexp", CMDS,
+        '            if root_variant:\n                assert root_variant.tree\n                segments = root_variant.tree.as_record(\n                    code_only=code_only,\n                    show_raw=True,\n                    include_meta=include_meta,\n                    include_position=include_meta,\n                )\n            else:\n                # Parsing failed - return null for segments.\n                segments = None\n',
+        '            segments = (\n                root_variant.tree.as_record(\n                    code_only=code_only,\n                    show_raw=True,\n                    include_meta=include_meta,\n                    include_position=include_meta,\n                )\n                if root_variant and root_variant.tree\n                else None\n            )\n',
+        "QUIET", None, 'if/else as a conditional expression',
+    ),
+    Variant(
+        "quiet-cli-record-dict-local", CMDS,
+        '            parsed_strings_dict.append(\n                {"filepath": parsed_string.fname, "segments": segments}\n            )\n',
+        '            file_record = {"filepath": parsed_string.fname, "segments": segments}\n            parsed_strings_dict.append(file_record)\n',
+        "QUIET", None, 'per-file record through a local',
+    ),
+    Variant(
+        "quiet-cli-show-raw-local", CMDS,
+        '                segments = root_variant.tree.as_record(\n                    code_only=code_only,\n                    show_raw=True,\n',
+        '                with_text = True\n                segments = root_variant.tree.as_record(\n                    code_only=code_only,\n                    show_raw=with_text,\n',
+        "QUIET", None, 'the constant True through a local',
+    ),
+    Variant(
+        "quiet-simplify-keys-comprehension", SEGBASE,
+        '        subkeys: list[str] = []\n        for _d in contents:\n            subkeys.extend(_d.keys())\n',
+        '        subkeys: list[str] = [k for _d in contents for k in _d.keys()]\n',
+        "QUIET", None, 'key list as one nested comprehension',
+    ),
+    Variant(
+        "quiet-simplify-eq-swapped", SEGBASE,
+        "        if len(set(subkeys)) != len(subkeys):\n            # Yes: use a list of single dicts.\n            # Recurse directly.\n            result[key] = contents\n            return result\n\n        # Otherwise there aren't duplicates, un-nest the list into a dict:\n        content_dict = {}\n        for record in contents:\n            for k, v in record.items():\n                content_dict[k] = v\n        result[key] = content_dict\n        return result\n",
+        '        if len(subkeys) == len(set(subkeys)):\n            content_dict = {}\n            for record in contents:\n                content_dict.update(record)\n            result[key] = content_dict\n        else:\n            result[key] = contents\n        return result\n',
+        "QUIET", None, 'uniqueness test with == and swapped arms, update() for the item loop',
+    ),
+    Variant(
+        "quiet-simplify-unique-local", SEGBASE,
+        '        if len(set(subkeys)) != len(subkeys):\n',
+        '        has_duplicates = len(set(subkeys)) != len(subkeys)\n        if has_duplicates:\n',
+        "QUIET", None, 'uniqueness test through a boolean local',
+    ),
+    Variant(
+        "quiet-simplify-for-extend-plus", SEGBASE,
+        '            subkeys.extend(_d.keys())\n',
+        '            subkeys += list(_d.keys())\n',
+        "QUIET", None, 'extend spelled += list(..)',
+    ),
+    Variant(
+        "quiet-simplify-dictcomp", SEGBASE,
+        '        content_dict = {}\n        for record in contents:\n            for k, v in record.items():\n                content_dict[k] = v\n        result[key] = content_dict\n',
+        '        result[key] = {k: v for record in contents for k, v in record.items()}\n',
+        "QUIET", None, 'merge as a dict comprehension',
+    ),
+    Variant(
+        "quiet-tuple-arm-comprehension", SEGBASE,
+        '        else:\n            child_tuples = []\n            for seg in self.segments:\n                if include_meta or not seg.is_meta:\n                    child_tuples.append(\n                        seg.to_tuple(\n                            code_only=code_only,\n                            show_raw=show_raw,\n                            include_meta=include_meta,\n                            include_position=include_position,\n                        )\n                    )\n            base_tuple = (self.get_type(), tuple(child_tuples))\n',
+        '        else:\n            base_tuple = (\n                self.get_type(),\n                tuple(\n                    seg.to_tuple(\n                        code_only=code_only,\n                        show_raw=show_raw,\n                        include_meta=include_meta,\n                        include_position=include_position,\n                    )\n                    for seg in self.segments\n                    if include_meta or not seg.is_meta\n                ),\n            )\n',
+        "QUIET", None, 'child loop as a generator expression',
+    ),
+    Variant(
+        "quiet-tuple-arm-continue", SEGBASE,
+        '        else:\n            child_tuples = []\n            for seg in self.segments:\n                if include_meta or not seg.is_meta:\n                    child_tuples.append(\n                        seg.to_tuple(\n                            code_only=code_only,\n                            show_raw=show_raw,\n                            include_meta=include_meta,\n                            include_position=include_position,\n                        )\n                    )\n            base_tuple = (self.get_type(), tuple(child_tuples))\n',
+        '        else:\n            child_tuples = []\n            for seg in self.segments:\n                if seg.is_meta and not include_meta:\n                    continue\n                child = seg.to_tuple(\n                    code_only=code_only,\n                    show_raw=show_raw,\n                    include_meta=include_meta,\n                    include_position=include_position,\n                )\n                child_tuples.append(child)\n            base_tuple = (self.get_type(), tuple(child_tuples))\n',
+        "QUIET", None, 'filter as an early continue, child tuple through a local',
+    ),
+    Variant(
+        "quiet-tuple-arm-positional", SEGBASE,
+        '        else:\n            child_tuples = []\n            for seg in self.segments:\n                if include_meta or not seg.is_meta:\n                    child_tuples.append(\n                        seg.to_tuple(\n                            code_only=code_only,\n                            show_raw=show_raw,\n                            include_meta=include_meta,\n                            include_position=include_position,\n                        )\n                    )\n            base_tuple = (self.get_type(), tuple(child_tuples))\n',
+        '        else:\n            child_tuples = []\n            for seg in self.segments:\n                if include_meta or not seg.is_meta:\n                    child_tuples.append(seg.to_tuple(code_only, show_raw, include_meta, include_position))\n            base_tuple = (self.get_type(), tuple(child_tuples))\n',
+        "QUIET", None, 'options passed positionally',
+    ),
+    Variant(
+        "quiet-tuple-segments-local", SEGBASE,
+        '        else:\n            child_tuples = []\n            for seg in self.segments:\n                if include_meta or not seg.is_meta:\n                    child_tuples.append(\n                        seg.to_tuple(\n                            code_only=code_only,\n                            show_raw=show_raw,\n                            include_meta=include_meta,\n                            include_position=include_position,\n                        )\n                    )\n            base_tuple = (self.get_type(), tuple(child_tuples))\n',
+        '        else:\n            child_tuples = []\n            children = self.segments\n            for seg in children:\n                if include_meta or not seg.is_meta:\n                    child_tuples.append(\n                        seg.to_tuple(\n                            code_only=code_only,\n                            show_raw=show_raw,\n                            include_meta=include_meta,\n                            include_position=include_position,\n                        )\n                    )\n            base_tuple = (self.get_type(), tuple(child_tuples))\n',
+        "QUIET", None, 'self.segments through a local',
+    ),
+    Variant(
+        "quiet-tuple-leaf-locals", SEGBASE,
+        '        if show_raw and not self.segments:\n            base_tuple = (self.get_type(), self.raw)\n',
+        '        if show_raw and not self.segments:\n            seg_type = self.get_type()\n            text = self.raw\n            base_tuple = (seg_type, text)\n',
+        "QUIET", None, 'type and text through locals',
+    ),
+    Variant(
+        "quiet-tuple-leaf-nested", SEGBASE,
+        '        if show_raw and not self.segments:\n            base_tuple = (self.get_type(), self.raw)\n        elif code_only:\n',
+        '        is_leaf = not self.segments\n        if show_raw and is_leaf:\n            base_tuple = (self.get_type(), self.raw)\n        elif code_only:\n',
+        "QUIET", None, 'no-children test through a boolean local',
+    ),
+    Variant(
+        "quiet-tuple-leaf-len", SEGBASE,
+        '        if show_raw and not self.segments:\n',
+        '        if show_raw and len(self.segments) == 0:\n',
+        "QUIET", None, 'no-children test by length',
+    ),
+    Variant(
+        "quiet-fmt-tree-local", FMT,
+        '                    if variant.tree:\n                        output_stream.write(variant.tree.stringify(code_only=code_only))\n',
+        '                    tree = variant.tree\n                    if tree:\n                        output_stream.write(tree.stringify(code_only=code_only))\n',
+        "QUIET", None, 'variant tree through a local',
+    ),
+    Variant(
+        "quiet-fmt-positional", FMT,
+        '                output_stream.write(root_variant.tree.stringify(code_only=code_only))\n',
+        '                rendered_tree = root_variant.tree.stringify(code_only=code_only)\n                output_stream.write(rendered_tree)\n',
+        "QUIET", None, 'rendered text through a local',
+    ),
+    # ---- breaking twins of the quiet spellings above ---------------------------------------------
+    Variant(
+        "continue-also-skips-whitespace", SEGBASE,
+        '        else:\n            child_tuples = []\n            for seg in self.segments:\n                if include_meta or not seg.is_meta:\n                    child_tuples.append(\n                        seg.to_tuple(\n                            code_only=code_only,\n                            show_raw=show_raw,\n                            include_meta=include_meta,\n                            include_position=include_position,\n                        )\n                    )\n            base_tuple = (self.get_type(), tuple(child_tuples))\n',
+        '        else:\n            child_tuples = []\n            for seg in self.segments:\n                if seg.is_meta and not include_meta:\n                    continue\n                if seg.is_whitespace and not include_meta:\n                    continue\n                child = seg.to_tuple(\n                    code_only=code_only,\n                    show_raw=show_raw,\n                    include_meta=include_meta,\n                    include_position=include_position,\n                )\n                child_tuples.append(child)\n            base_tuple = (self.get_type(), tuple(child_tuples))\n',
+        "R28c", "to_tuple", "twin of quiet-tuple-arm-continue",
+    ),
+    Variant(
+        "child-local-appended-conditionally", SEGBASE,
+        '        else:\n            child_tuples = []\n            for seg in self.segments:\n                if include_meta or not seg.is_meta:\n                    child_tuples.append(\n                        seg.to_tuple(\n                            code_only=code_only,\n                            show_raw=show_raw,\n                            include_meta=include_meta,\n                            include_position=include_position,\n                        )\n                    )\n            base_tuple = (self.get_type(), tuple(child_tuples))\n',
+        '        else:\n            child_tuples = []\n            for seg in self.segments:\n                if seg.is_meta and not include_meta:\n                    continue\n                child = seg.to_tuple(\n                    code_only=code_only,\n                    show_raw=show_raw,\n                    include_meta=include_meta,\n                    include_position=include_position,\n                )\n                if child[1]:\n                    child_tuples.append(child)\n            base_tuple = (self.get_type(), tuple(child_tuples))\n',
+        "R28c", "to_tuple", "twin of quiet-tuple-arm-continue",
+    ),
+    Variant(
+        "key-comprehension-over-the-first-child-only", SEGBASE,
+        '        subkeys: list[str] = []\n        for _d in contents:\n            subkeys.extend(_d.keys())\n',
+        '        subkeys: list[str] = [k for _d in contents[:1] for k in _d.keys()]\n',
+        "R28b", "structural_simplify", 'twin of quiet-simplify-keys-comprehension',
+    ),
+    Variant(
+        "uniqueness-local-compares-with-the-number-of-children", SEGBASE,
+        '        if len(set(subkeys)) != len(subkeys):\n',
+        '        has_duplicates = len(set(subkeys)) != len(contents)\n        if has_duplicates:\n',
+        "R28b", "structural_simplify", 'twin of quiet-simplify-unique-local',
+    ),
+    Variant(
+        "keys-plus-eq-first-key-only", SEGBASE,
+        '            subkeys.extend(_d.keys())\n',
+        '            subkeys += list(_d.keys())[:1]\n',
+        "R28b", "structural_simplify", 'twin of quiet-simplify-for-extend-plus',
+    ),
+    Variant(
+        "leaf-text-local-stripped", SEGBASE,
+        '        if show_raw and not self.segments:\n            base_tuple = (self.get_type(), self.raw)\n',
+        '        if show_raw and not self.segments:\n            seg_type = self.get_type()\n            text = self.raw.strip()\n            base_tuple = (seg_type, text)\n',
+        "R28c", "to_tuple", 'twin of quiet-tuple-leaf-locals',
+    ),
+    Variant(
+        "leaf-local-tests-raw-segments", SEGBASE,
+        '        if show_raw and not self.segments:\n            base_tuple = (self.get_type(), self.raw)\n        elif code_only:\n',
+        '        is_leaf = not self.raw_segments\n        if show_raw and is_leaf:\n            base_tuple = (self.get_type(), self.raw)\n        elif code_only:\n',
+        "R28c", "to_tuple", 'twin of quiet-tuple-leaf-nested',
+    ),
+    Variant(
+        "leaf-by-length-at-most-one", SEGBASE,
+        '        if show_raw and not self.segments:\n',
+        '        if show_raw and len(self.segments) <= 1:\n',
+        "R28c", "to_tuple", 'twin of quiet-tuple-leaf-len',
+    ),
+    # ---- earlier variants ------------------------------------------------------------------------
     Variant(
         "variant-section-prints-root-tree", FMT,
         "                        output_stream.write(variant.tree.stringify(code_only=code_only))\n",
